@@ -535,6 +535,19 @@ func c16Run(r *hx.Run, bin string, seq *c16Seq, rnd *rand.Rand) {
 				return "best_remove"
 			},
 		}
+	case "server_cache_switch":
+		script = []func() string{
+			func() string { findSrv(logical, "S1").Cache = "c0"; return "srv_cache_switch S1 c0" },
+		}
+	case "server_cache_renamed":
+		script = []func() string{
+			func() string {
+				logical.Caches = append(logical.Caches, config.CacheConfig{Name: "c2", Size: 5000, HitForPass: "5m"})
+				findSrv(logical, "S1").Cache = "c2"
+				logical.Caches = append(logical.Caches[:1:1], logical.Caches[2:]...) // c1 is gone
+				return "cache c1 replaced by c2 for S1"
+			},
+		}
 	case "server_remove_then_readd":
 		script = []func() string{
 			func() string {
@@ -716,13 +729,19 @@ func c16(r *hx.Run) {
 	n := r.Pick(8, 150)
 	sem := make(chan struct{}, 8)
 	var wg sync.WaitGroup
-	for i := 0; i < n+2 && !r.TooMany(); i++ {
+	for i := 0; i < n+4 && !r.TooMany(); i++ {
 		seq := &c16Seq{ID: i, CheckRemovedListener: i%8 == 0}
 		if i == n {
 			seq.Directed = "best_override_then_remove"
 		}
 		if i == n+1 {
 			seq.Directed = "server_remove_then_readd"
+		}
+		if i == n+2 {
+			seq.Directed = "server_cache_switch"
+		}
+		if i == n+3 {
+			seq.Directed = "server_cache_renamed"
 		}
 		seed := rnd.Int63()
 		wg.Add(1)
